@@ -909,6 +909,28 @@ theorem facts_batch_accounting :
         = [[.big 0 (.int 1), .big 1 (.int 2)]])) := by
   decide
 
+/-- **mixed_batch_is_request_batch.**  A list message with at least one member that does not
+    look like a response is handled as a request batch (so that its requests are answered and
+    its invalid members get their error entries), wherever that member stands. -/
+theorem mixed_batch_is_request_batch (respLike : List Bool) (h : false ∈ respLike) :
+    isRequestBatch respLike = true := by
+  unfold isRequestBatch
+  simp only [Bool.not_eq_eq_eq_not, Bool.not_true, all_eq_false]
+  exact ⟨false, h, by simp⟩
+
+/-- non-vacuity: `[response-looking, request]` and `[request, response-looking]` are request
+    batches; `[response-looking, response-looking]` is not -/
+example : isRequestBatch [true, false] = true ∧ isRequestBatch [false, true] = true ∧
+    isRequestBatch [true, true] = false := by decide
+
+open Aiorpcx.Facts.C02 in
+/-- the dispatch of the code under test on all two-member lists over {request,
+    response-looking} is the model's `isRequestBatch` (probed through `receive_message`) -/
+theorem facts_dispatch :
+    dispatchTable.length = 4 ∧
+    ∀ row ∈ dispatchTable, isRequestBatch [row.1, row.2.1] = row.2.2 := by
+  decide
+
 open Aiorpcx.Facts.C02 in
 /-- `_send_result` at the boundary behaves as `sendResultSingle` (`oversize_single`):
     exactly at the limit kept, one byte over replaced under the same id, limit 0 unlimited -/
